@@ -1060,6 +1060,12 @@ _has_traits_trait(has_traits_object *obj, PyObject *args)
         Py_DECREF(daname);
         daname = daname2;
         Py_DECREF(trait);
+        if (daname == NULL) {
+            /* The name mapping failed (for example a class '__prefix__'
+               that is not a string): propagate the exception. */
+            Py_DECREF(delegate);
+            return NULL;
+        }
         if (((delegate->itrait_dict == NULL)
              || ((trait = (trait_object *)dict_getitem(
                       delegate->itrait_dict, daname))
@@ -2067,6 +2073,11 @@ getattr_delegate(trait_object *trait, has_traits_object *obj, PyObject *name)
     }
 
     delegate_attr_name = trait->delegate_attr_name(trait, obj, name);
+    if (delegate_attr_name == NULL) {
+        Py_DECREF(delegate);
+        Py_LeaveRecursiveCall();
+        return NULL;
+    }
     tp = Py_TYPE(delegate);
 
     if (tp->tp_getattro != NULL) {
@@ -2640,6 +2651,10 @@ setattr_delegate(
         daname2 = traitd->delegate_attr_name(traitd, obj, daname);
         Py_DECREF(daname);
         daname = daname2;
+        if (daname == NULL) {
+            Py_DECREF(delegate);
+            return -1;
+        }
         if (((delegate->itrait_dict == NULL)
              || ((traitd = (trait_object *)dict_getitem(
                       delegate->itrait_dict, daname))
